@@ -623,6 +623,10 @@ class SpecEval:
             v = self.eval_term(args[0], env)
             base = env.old.alloc if env.old is not None else self.ex.entry_alloc
             return z3.And(v >= base, v < env.st.alloc)
+        if name == 'sinceentry':
+            # sinceentry(r): the object r was allocated by the function under verification (not by its caller)
+            v = self.eval_term(args[0], env)
+            return z3.And(v >= self.ex.entry_alloc, v < env.st.alloc)
         if name == 'freshiface':
             # freshiface(v): whatever pointer the interface value v holds was allocated since the old state
             v = self.eval(args[0], env)
